@@ -328,7 +328,9 @@ func (fr *Frame) loopCallEffects(pre *State, li *loopInfo, eff *loopEffects, c *
 		key = funcKey(callee)
 	}
 	for _, lab := range vc.p.countOf[key] {
-		eff.counters = append(eff.counters, lab)
+		if vc.labels[lab] {
+			eff.counters = append(eff.counters, lab)
+		}
 	}
 	if fr.callIsPure(c) {
 		return
